@@ -37,7 +37,7 @@ def mrp_writer(evs):
 
 
 def one_cycle(root, wd, prog, sem, name, k, sig, cores=4):
-    c = procdrv.Cycle(root, wd, prog, sem, name, cores=cores)
+    c = procdrv.Cycle(root, wd, prog, sem, name, cores=cores, delay_ms=(150 if cores == 1 else 20))
     c.mark("RunBegin")
     if sig == "SIGKILL":
         rc1, _ = c.run(crash_at=k)
@@ -66,13 +66,15 @@ def one_cycle(root, wd, prog, sem, name, k, sig, cores=4):
     return res
 
 
-def fault_cycle(root, wd, prog, sem, name, fault_key, slow_key, ref_outs):
+def fault_cycle(root, wd, prog, sem, name, fault_key, slow_key, ref_outs, cores=4, waiting_key=None):
     """A later fork of a mapped stage fails (once) while an earlier fork is still running; mrp
     is killed right after it has read the failure; the operator removes the lock and starts mrp
     again: it must complete with the reference outputs.  Returns (result or None, note)."""
-    faults, delays = {fault_key: "errors*1"}, {slow_key: 2500}
+    faults, delays = {fault_key: "errors*1"}, ({slow_key: 2500} if slow_key else {})
+    dl = 20 if cores > 1 else 200
     # first pass without a kill: where in mrp's effects the failure is read
-    c0 = procdrv.Cycle(root, wd + "_probe", prog, sem, name + "#probe", faults=faults, delays={slow_key: 600})
+    c0 = procdrv.Cycle(root, wd + "_probe", prog, sem, name + "#probe", faults=faults, delays=({slow_key: 600} if slow_key else {}),
+                       cores=cores, delay_ms=dl)
     c0.run(timeout=120)
     evs = c0.events()
     c0.cleanup()
@@ -81,15 +83,18 @@ def fault_cycle(root, wd, prog, sem, name, fault_key, slow_key, ref_outs):
     k = next((i + 1 for i, e in enumerate(mine) if e.get("ev") == "JournalSeen" and e.get("file", "").endswith("errors")), 0)
     if not k:
         return None, "the probe run never read the failure through the journal"
-    c = procdrv.Cycle(root, wd, prog, sem, name, faults=faults, delays=delays)
+    c = procdrv.Cycle(root, wd, prog, sem, name, faults=faults, delays=delays, cores=cores, delay_ms=dl)
     c.mark("RunBegin")
     rc1, _ = c.run(crash_at=k)
     evs1 = c.events()
     began = {e["job"] for e in evs1 if e.get("ev") == "StageBegin"}
     ended = {e["job"] for e in evs1 if e.get("ev") == "StageEnd"}
-    if not (slow_key in began and slow_key not in ended and fault_key in ended):
+    if slow_key and not (slow_key in began and slow_key not in ended and fault_key in ended):
         c.cleanup()
         return None, "the kill did not fall between the failure of %s and the end of %s" % (fault_key, slow_key)
+    if waiting_key and not (fault_key in ended and waiting_key not in began):
+        c.cleanup()
+        return None, "the kill did not fall between the failure of %s and the start of %s" % (fault_key, waiting_key)
     c.mark("Interrupted", sig="SIGKILL", rc=str(rc1), locked=c.locked())
     c.remove_lock()
     n1 = len(c.events())
@@ -220,7 +225,7 @@ def run(tier, replay=None):
     onecore = {}
     for p in progs:
         if p["name"] in ("map_dynkeys_split", "map_dynarr_split", "map_dyn2"):
-            c = procdrv.Cycle(root, os.path.join(base, "ref1_" + p["name"]), p, sem[p["name"]], p["name"], cores=1)
+            c = procdrv.Cycle(root, os.path.join(base, "ref1_" + p["name"]), p, sem[p["name"]], p["name"], cores=1, delay_ms=150)
             rc, dt = c.run()
             evs = c.events()
             w = mrp_writer(evs)
@@ -228,9 +233,20 @@ def run(tier, replay=None):
             c.cleanup()
             if rc != 0:
                 raise vlib.Infra("one-core reference run of %s failed (rc=%s)" % (p["name"], rc))
+            # first the moments a join is handed to the job manager (its fork's chunks are done,
+            # a sibling's chunk is likely running), then other submissions and process starts
+            kj = [i + 1 for i, e in enumerate(mine1) if e["ev"] in ("Submit", "MdWrite") and "join" in json.dumps(e)
+                  and (e["ev"] == "Submit" or e.get("name") in ("jobinfo", "queued_locally"))]
             ks = [i + 1 for i, e in enumerate(mine1) if e["ev"] in ("ProcStart", "JournalSeen", "Submit")]
+            rng.shuffle(kj)
             rng.shuffle(ks)
-            for k in ks[:{"quick": 8, "thorough": 400}[tier]]:
+            chosen1 = []
+            for k in kj[:{"quick": 6, "thorough": 400}[tier]] + ks:
+                if k not in chosen1:
+                    chosen1.append(k)
+                if len(chosen1) >= {"quick": 10, "thorough": 400}[tier]:
+                    break
+            for k in chosen1:
                 onecore[len(cases)] = True
                 cases.append((p, k, "SIGKILL"))
 
@@ -270,7 +286,10 @@ def run(tier, replay=None):
         })
     # a fork of a mapped stage has failed, an earlier one still runs, mrp is killed, restarted
     fault_report = []
-    for pname, fkey, skey in (("map_dyn2", "TOP.A[1]/main/0", "TOP.A[0]/main/0"), ("map_static", "TOP.A[1]/main/0", "TOP.A[0]/main/0")):
+    for pname, fkey, skey in (("map_dyn2", "TOP.A[1]/main/0", "TOP.A[0]/main/0"), ("map_static", "TOP.A[1]/main/0", "TOP.A[0]/main/0"),
+                              # on one core: the later fork's first chunk fails for good while the earlier fork's join
+                              # waits in the queue behind the later fork's other chunks
+                              ("map_dynkeys_split", "TOP.S[k2]/main/0", None), ("map_dynarr_split", "TOP.S[1]/main/0", None)):
         q = next((x for x in shapes.catalogue() if x["name"] == pname), None)
         if q is None:
             continue
@@ -280,14 +299,19 @@ def run(tier, replay=None):
             rc, _ = c.run()
             refs[pname] = (0, c.top_outs(), [], None)
             c.cleanup()
-        r, note = fault_cycle(root, os.path.join(base, "fc_" + pname), q, qsem[pname], pname + "#fault", fkey, skey, refs[pname][1])
+        if skey is None:
+            wkey = fkey.split("[")[0] + ("[k1]" if "k2" in fkey else "[0]") + "/join/0"
+            r, note = fault_cycle(root, os.path.join(base, "fc_" + pname), q, qsem[pname], pname + "#fault", fkey, None, refs[pname][1],
+                                  cores=1, waiting_key=wkey)
+        else:
+            r, note = fault_cycle(root, os.path.join(base, "fc_" + pname), q, qsem[pname], pname + "#fault", fkey, skey, refs[pname][1])
         if r is None:
             fault_report.append({"program": pname, "skipped": note})
             continue
         fault_report.append({"program": pname, "killed_after_effect": r["k"], "restart_exit": r["rc2"], "outputs_equal": r["outs"] == r["ref"]})
         if r["rc2"] != 0 or r["outs"] != r["ref"]:
             viols.append({"prop": "C05", "key": "C05:%s:SIGKILL:fork-failed-earlier-fork-running:restart" % pname,
-                          "what": "C05 program %s: fork %s failed (the job succeeds when run again) while %s was still running, mrp was killed right after reading the failure; the restarted mrp ended with status %s, outputs %s, reference %s; %s" % (
+                          "what": "C05 program %s: fork %s failed (the job succeeds when run again) while %s was still unfinished, mrp was killed right after reading the failure; the restarted mrp ended with status %s, outputs %s, reference %s; %s" % (
                               pname, fkey, skey, r["rc2"], json.dumps(r["outs"])[:120], json.dumps(r["ref"])[:120], r["mrp_out"].replace("\n", " ")[-300:]),
                           "replay": {"program.mro": r["mro"], "report.json": json.dumps({k_: v_ for k_, v_ in r.items() if k_ != "mro"})}})
     mine = [v for v in viols if v["prop"] == "C05"]
